@@ -1465,5 +1465,6 @@ main(int argc, char **argv)
 		if (g_sigpipe != sp0) printf("sigpipe %d\n", g_sigpipe - sp0);
 		fflush(stdout);
 	}
+	nng_fini();
 	return 0;
 }
